@@ -36,10 +36,11 @@ func SpecCtx(c iclient.CodegenClient) *codegen.CodeGenContext {
 
 // Every emitted ocode records the mode in force at the time of the Emit call.
 //@ func (*ocodeClient).Emit
-//@ props C17 C14
+//@ props C17 C14 C07
 //@ requires c != nil
-//@ ensures[stamp] result0 == nil ==> len(c.Ocodes) == len(old(c.Ocodes))+1 && c.Ocodes[len(c.Ocodes)-1].BitMode == old(c.bitMode)
-//@ ensures[keep]  result0 != nil ==> len(c.Ocodes) == len(old(c.Ocodes))
+//@ ensures[diag@C07] result0 != nil ==> vcLoggedError()
+//@ ensures[stamp@C17+C14] result0 == nil ==> len(c.Ocodes) == len(old(c.Ocodes))+1 && c.Ocodes[len(c.Ocodes)-1].BitMode == old(c.bitMode)
+//@ ensures[keep@C17+C14+C07]  result0 != nil ==> len(c.Ocodes) == len(old(c.Ocodes))
 //@ assigns ocodeClient.Ocodes
 
 //@ func NewCodegenClient
